@@ -25,7 +25,7 @@ func ruleC12(w *World, r *Report) {
 		r.errorf("SplitRawStatements not found")
 		return
 	}
-	r.rule("C12/R1", "every lex.NextToken() result is compared with nil and returned as the error on the non-nil edge", 2)
+	r.rule("C12/R1", "every lex.NextToken() result is compared with nil and returned as the error on the non-nil edge", 1)
 	r.rule("C12/R2", "the input string is only the lexer's Buffer and the operand of s[a:b]; conditions depend only on Token.Kind vs ';'/<eof>, the error, positions and len(result)", 2)
 	r.rule("C12/R3", "RawStatement literals: Statement = s[a:b] with the same SSA values a, b that are stored in Pos and End; End is the position of the current (';' or <eof>) token", 2)
 	r.rule("C12/R4", "the start of the piece that follows a ';' depends on the Comments of the next token (its Pos lies after its comments) or is the end of the ';' token", 1)
@@ -119,6 +119,12 @@ func ruleC12(w *World, r *Report) {
 				badUse = "stored somewhere other than File.Buffer at " + w.pos(u.Pos())
 			}
 		case *ssa.DebugRef:
+		case *ssa.Call:
+			if _, ok := w.pieceConstructor(u, sParam); ok {
+				nSlices++
+				continue
+			}
+			badUse = fmt.Sprintf("used by %T at %s (the splitter inspects the text itself)", u, w.pos(u.Pos()))
 		default:
 			badUse = fmt.Sprintf("used by %T at %s (the splitter inspects the text itself)", u, w.pos(u.Pos()))
 		}
@@ -155,7 +161,11 @@ func ruleC12(w *World, r *Report) {
 				continue
 			}
 		}
-		badCond = "condition at " + w.pos(condPos(iff)) + " is not a kind test against ';'/<eof>, an error test, a position comparison or a length test"
+		// a state flag of the loop: a boolean variable that only ever holds constants ("the next token starts a piece")
+		if constFlag(iff.Cond, map[ssa.Value]bool{}) {
+			continue
+		}
+		badCond = "condition at " + w.pos(condPos(iff)) + " is not a kind test against ';'/<eof>, an error test, a position comparison, a length test or a flag of the loop"
 	}
 	if badCond != "" {
 		r.bad("C12/R2", "branch conditions", w.pos(fn.Pos()), badCond)
@@ -164,13 +174,31 @@ func ruleC12(w *World, r *Report) {
 	}
 	// R3
 	nLit := 0
+	// the pieces: RawStatement literals of the function, and calls of a constructor helper
+	// (newRawStatement(s, pos, end) = &RawStatement{Pos: pos, End: end, Statement: s[pos:end]}) read as such literals
+	type pieceSite struct {
+		at     ssa.Instruction
+		fields map[string]ssa.Value
+	}
+	var pieces []pieceSite
 	for _, b := range fn.Blocks {
 		for _, in := range b.Instrs {
-			al, ok := in.(*ssa.Alloc)
-			if !ok || !isNamed(al.Type(), modRoot, "RawStatement") {
-				continue
+			switch x := in.(type) {
+			case *ssa.Alloc:
+				if isNamed(x.Type(), modRoot, "RawStatement") {
+					pieces = append(pieces, pieceSite{x, allocFieldStores(x)})
+				}
+			case *ssa.Call:
+				if f, ok := w.pieceConstructor(x, sParam); ok {
+					pieces = append(pieces, pieceSite{x, f})
+				}
 			}
-			fields := allocFieldStores(al)
+		}
+	}
+	for _, ps := range pieces {
+		{
+			al := ps.at
+			fields := ps.fields
 			nLit++
 			construct := fmt.Sprintf("RawStatement literal %d", nLit)
 			stv := fields["Statement"]
@@ -178,12 +206,18 @@ func ruleC12(w *World, r *Report) {
 				r.trivial("C12/R3", construct, w.pos(al.Pos()), "the empty-input placeholder {Statement: \"\"}")
 				continue
 			}
-			sl, isSl := stv.(*ssa.Slice)
-			if !isSl || sl.X != ssa.Value(sParam) {
-				r.bad("C12/R3", construct, w.pos(al.Pos()), "Statement is not a slice of the input string")
-				continue
+			var lo, hi ssa.Value
+			if clo, viaConstructor := fields["\x00lo"]; viaConstructor {
+				// a constructor helper: Statement = s[a:b] with a, b its position arguments (checked in pieceConstructor)
+				lo, hi = strip(clo), strip(fields["\x00hi"])
+			} else {
+				sl, isSl := stv.(*ssa.Slice)
+				if !isSl || sl.X != ssa.Value(sParam) {
+					r.bad("C12/R3", construct, w.pos(al.Pos()), "Statement is not a slice of the input string")
+					continue
+				}
+				lo, hi = strip(sl.Low), strip(sl.High)
 			}
-			lo, hi := strip(sl.Low), strip(sl.High)
 			sameVal := func(a, b ssa.Value) bool {
 				if a == b {
 					return true
@@ -265,13 +299,9 @@ func ruleC12(w *World, r *Report) {
 		}
 		return []ssa.Value{v}
 	}
-	for _, b := range fn.Blocks {
-		for _, in := range b.Instrs {
-			al, ok := in.(*ssa.Alloc)
-			if !ok || !isNamed(al.Type(), modRoot, "RawStatement") {
-				continue
-			}
-			pv := allocFieldStores(al)["Pos"]
+	for _, ps := range pieces {
+		{
+			pv := ps.fields["Pos"]
 			if pv == nil {
 				continue
 			}
@@ -453,4 +483,92 @@ func ruleC12R6(w *World, r *Report) {
 			r.bad(rule, construct, w.pos(s.pos), fmt.Sprintf("sets [%s], the parser's lexer is built with [%s]: the two lexers are configured differently and need not agree on token boundaries", strings.Join(s.fields, ", "), strings.Join(ref, ", ")))
 		}
 	}
+}
+
+
+// constFlag: v is a boolean built from constants only (a phi of true/false, possibly negated).
+func constFlag(v ssa.Value, seen map[ssa.Value]bool) bool {
+	if seen[v] {
+		return true
+	}
+	seen[v] = true
+	switch x := v.(type) {
+	case *ssa.Const:
+		_, ok := constBool(x)
+		return ok
+	case *ssa.Phi:
+		for _, e := range x.Edges {
+			if !constFlag(e, seen) {
+				return false
+			}
+		}
+		return true
+	case *ssa.UnOp:
+		return x.Op == token.NOT && constFlag(x.X, seen)
+	}
+	return false
+}
+
+
+// pieceConstructor: call is h(…, s, …, a, b) of a function of the module whose body is
+// `return &RawStatement{Pos: a, End: b, Statement: s[a:b]}` over its parameters; the fields of that literal in terms of
+// the arguments of the call.
+func (w *World) pieceConstructor(call *ssa.Call, input ssa.Value) (map[string]ssa.Value, bool) {
+	h := call.Call.StaticCallee()
+	if h == nil || h.Blocks == nil || fnPkgPath(h) != modRoot || len(h.Blocks) != 1 {
+		return nil, false
+	}
+	argOf := map[ssa.Value]ssa.Value{}
+	passesInput := false
+	for i, p := range h.Params {
+		if i < len(call.Call.Args) {
+			argOf[p] = call.Call.Args[i]
+			if call.Call.Args[i] == input {
+				passesInput = true
+			}
+		}
+	}
+	if !passesInput {
+		return nil, false
+	}
+	var lit *ssa.Alloc
+	for _, in := range h.Blocks[0].Instrs {
+		if al, ok := in.(*ssa.Alloc); ok && isNamed(al.Type(), modRoot, "RawStatement") {
+			if lit != nil {
+				return nil, false
+			}
+			lit = al
+		}
+		if c, ok := in.(*ssa.Call); ok {
+			if _, isB := c.Call.Value.(*ssa.Builtin); !isB {
+				return nil, false
+			}
+		}
+	}
+	if lit == nil {
+		return nil, false
+	}
+	strip := func(v ssa.Value) ssa.Value {
+		for {
+			switch x := v.(type) {
+			case *ssa.Convert:
+				v = x.X
+			case *ssa.ChangeType:
+				v = x.X
+			default:
+				return v
+			}
+		}
+	}
+	fs := allocFieldStores(lit)
+	sl, ok := fs["Statement"].(*ssa.Slice)
+	if !ok || argOf[sl.X] != input || sl.Low == nil || sl.High == nil {
+		return nil, false
+	}
+	lo, hi := strip(sl.Low), strip(sl.High)
+	if fs["Pos"] == nil || fs["End"] == nil || strip(fs["Pos"]) != lo || strip(fs["End"]) != hi || argOf[lo] == nil || argOf[hi] == nil {
+		return nil, false
+	}
+	// in the caller's terms: a synthetic slice cannot be built; Statement is reported through the marker below
+	return map[string]ssa.Value{"Pos": argOf[lo], "End": argOf[hi], "Statement": nil, "\x00lo": argOf[lo], "\x00hi": argOf[hi]}, true
 }
